@@ -105,6 +105,10 @@ func (e *OneByteHeaderExtension) Get(id uint8) []byte {
 		payloadLen := int(e.payload[n]&^0xF0 + 1)
 		n++
 
+		if extid == headerExtensionIDReserved {
+			break
+		}
+
 		if extid == id {
 			return e.payload[n : n+payloadLen]
 		}
